@@ -250,6 +250,12 @@ def main(argv=None) -> int:
     grow = list(range(len(universe(gsize))))
     merge(chk, par.pmap(gen_chunk, [(ch, gsize) for ch in par.chunks(grow, n)]), 'gen_', agg)
     merge(chk, par.pmap(inst_chunk, [(ch, gsize) for ch in par.chunks(grow, n)]), 'inst_', agg)
+    # query histories: the hand-picked premises once more, each time in ONE process, forwards and backwards (the oracle is
+    # absolute, so a verdict that depends on what was asked before shows up in one of the two orders)
+    base = len(list(__import__('mc.bridge', fromlist=['x']).repo_universe(gsize, extra_meta=True)))
+    picked = list(range(base, len(grow)))
+    merge(chk, par.pmap(gen_chunk, [(picked, gsize), (picked[::-1], gsize)]), 'genhist_', agg)
+    merge(chk, par.pmap(inst_chunk, [(picked, gsize), (picked[::-1], gsize)]), 'insthist_', agg)
     chk.set('evaluations', sum(v for k, v in agg.items() if k.endswith('_evals')))
     chk.set('distinct_nontrivial', agg.get('mp_applicable', 0) + agg.get('gen_applicable', 0) + agg.get('inst_applicable', 0)
             + agg.get('inst_inapplicable', 0))
